@@ -30,6 +30,18 @@ checks = {
  "C13": dict(cat="exploration", tech="bounded-exhaustive enumeration incl. a sweep of EVERY stack limit from 0 to 4*T0+16 relative to each pattern's own initial allocation",
    text="Breadth (five families x inputs x limits 0..72,100,1000,default) plus a STACK family built to fill the stack between two capacity checks, swept over every limit around every doubling boundary: result equals the unlimited result or ErrBacktrackingStackLimit, no panic, stack capacity <= L, success monotone in L, Regexp usable afterwards.",
    note="Trusted: hook VerifScanStats (stack capacity). Pairs whose unlimited run needs > 300000 steps are skipped and counted (time, not stack).", ref="4 C13"),
+ "C14": dict(cat="model_checking", eng="E-sched", tech="stateless schedule exploration (CHESS style) of the real timeout-clock code under a controlled scheduler with virtual time; preemption-, tie- and jitter-bounded DFS over all interleavings",
+   text="The real makeDeadline/extendClock/runClock/stopClock and the real interpreter's timeout checks are rebuilt through a build overlay that routes sync, sync/atomic, time and the go statement through shims; every history of up to 3 (4) operations of one client and phase-aligned pairs of concurrent clients are executed under every interleaving up to the preemption bound (and one timer-jitter deviation), with exact virtual-time oracles: a long match times out inside [d - J - 2 ticks, d + 3P + c + J + 2 ticks], a quick match never reports a timeout, the clock goroutine has exited at quiescence, no deadlock.",
+   note="Sequentially consistent scheduler: scheduling points at sync/atomic/time operations only. OS latency is a bounded jitter parameter. Failing schedules are replayed twice before they are reported; harness problems (divergent replay, a 'quick' op that is not quick) never become violations.", ref="4 C14, 3.4"),
+ "C16": dict(cat="model_checking", tech="bounded-exhaustive enumeration of class expressions x every rune of the domain x every lookup path, atoms vs independent definitions and compounds vs set algebra over measured atom tables",
+   text="Every class of the CLASS grammar (atoms; flat unions of <= 2 items, negated or not; subtraction incl. nested; merged alternations) in 5 modes is evaluated on every rune of the domain through 8 lookup paths (CharSet.CharIn before/after ASCII bitmaps; ^C$, C+, x*C compiled with and without the bitmap option) and compared with independent atom definitions (Go unicode tables, ASCII tables) and with set algebra over the measured tables of the class's own parts.",
+   note="Under IgnoreCase the domain is restricted as the property says (ASCII plus plain upper/lower pairs). Thorough sweeps all 1,112,064 scalar values for <= 2-item classes.", ref="4 C16"),
+ "C17": dict(cat="model_checking", tech="bounded-exhaustive enumeration of group sequences/nestings x option sets against a reference numbering function plus consistency of every lookup",
+   text="Every sequence of up to 4 (5) groups from a 10/11-item menu (unnamed, named, duplicate names, explicit sparse numbers, non-capturing, (?P<n>)), sequential and nested, under 9 option sets; each group captures its own letter, so one match reveals the slot of each group. Numbers and names must equal an independent reference numbering function where the rule is documented, and GetGroupNames/Numbers, name<->number lookups, Groups() order, GroupByName/Number, backreferences by number and name and $n/${name} must all designate the same group.",
+   note="Where the documentation is silent (explicit numbers under MaintainCaptureOrder, non-JS syntax under ECMAScript) only compilation and consistency are demanded.", ref="4 C17"),
+ "C19": dict(cat="exploration", tech="exhaustive enumeration of every single-rune string over all Unicode scalar values plus every string up to length 3 over a 64-rune alphabet, x option sets",
+   text="For every string s of the enumerated set: Unescape(Escape(s)) == s, and \\A(?:Escape(s))\\z compiles under every option set of the menu, matches exactly s and rejects every one-rune deletion, duplication and successor replacement of s.",
+   note="Strings longer than 3 runes and alphabets outside the 64-rune menu are not covered except as single runes.", ref="4 C19"),
  "C03": dict(cat="exploration", tech="bounded-exhaustive differential: accelerated scan vs naive scan of the same compiled program at every start offset",
    text="For every enumerated pattern (families chosen per search mode; code-gen analysis on/off; both directions) and every input and start offset, the public rune and string entry points must return exactly what the verif-only naive scan (attempt at every position, no filter, no candidate search, no cut-off) returns for the same compiled program.",
    note="Trusted: the hook VerifNaiveScan and the interpreter itself (it is common to both sides; its meaning is C01's business). Bounds as printed in the evidence.", ref="4 C03"),
@@ -46,7 +58,8 @@ m = {
    "add_only": True,
  },
  "engines": [
-   {"name":"E-enum","path":"harness/","serves_properties":sorted(checks.keys()),"kind_free_text":E_ENUM},
+   {"name":"E-enum","path":"harness/","serves_properties":sorted(k for k in checks if checks[k].get("eng","E-enum")=="E-enum"),"kind_free_text":E_ENUM},
+   {"name":"E-sched","path":"harness/sched.go + shim/ + mkoverlay/","serves_properties":sorted(k for k in checks if checks[k].get("eng")=="E-sched"),"kind_free_text":"stateless schedule exploration: controlled scheduler (one runnable goroutine at a time, scheduling points at every sync/atomic/time/pool operation, virtual clock), DFS over choice sequences bounded by preemptions, tie departures and deviations (timer jitter, pool miss/drop); the code under test is /repo rebuilt through a go build -overlay that only rewrites imports"},
  ],
  "checks": [],
  "notes": "All checks: ./run.sh <ID> <tier>. Evidence in evidence/<ID>.json, replay artefacts in replays/, recorded findings in known_findings.json. See DESIGN.md.",
@@ -60,7 +73,7 @@ for cid in sorted(checks):
       "thorough_cmd": f"./run.sh {cid} thorough",
       "evidence_file": f"/verif/evidence/{cid}.json",
       "replay_cmd_template": "./bin/rxv replay {path}",
-      "engine": "E-enum",
+      "engine": c.get("eng","E-enum"),
       "level_claimed": {"category": c["cat"], "text": c["text"], "design_ref": "DESIGN.md section "+c["ref"]},
       "level_note": c["note"],
       "technique": c["tech"],
